@@ -12,6 +12,7 @@ import (
 	"sort"
 	"strconv"
 	"strings"
+	"sync/atomic"
 	"time"
 
 	"worldcoin/gnark-mbu/prover"
@@ -180,7 +181,16 @@ type scrape struct {
 	Elapsed  time.Duration
 }
 
+// scrapeMinTimeout is set by checks whose oracle reads /metrics for its CONTENT (C20): they never treat slowness as a verdict.
+var scrapeMinTimeout atomic.Int64 // nanoseconds
+
 func (s *testServer) scrape(timeout time.Duration) scrape {
+	// A client-side time limit is never a verdict about the server (a loaded machine can delay an answer by many
+	// seconds): every scrape is given minutes. Callers that look for a BLOCKED metrics endpoint do so while they hold the
+	// blocking condition in place and compare with a control scrape.
+	if m := time.Duration(scrapeMinTimeout.Load()); timeout < m {
+		timeout = m
+	}
 	c := &http.Client{Timeout: timeout}
 	r := doRequest(c, "GET", "http://"+s.MetricsAddr+"/metrics", nil)
 	out := scrape{Status: r.Status, Err: r.Err, Totals: map[string]float64{}, Elapsed: r.Elapsed}
